@@ -1,3 +1,4 @@
+#![allow(static_mut_refs, unused_imports, dead_code, unused_unsafe)]
 // Kani harnesses for src/sqpack/mod.rs (block reader / writer) and the block header of data.rs
 use super::*;
 use std::io::Cursor;
@@ -264,3 +265,37 @@ fn c02_pipeline_witness() {
     let _ = BlockHeader::read(&mut c).unwrap();
     assert!(false);
 }
+
+// ------------------------------------------------------------------------------------- C17
+/// patch block reader on damaged (attacker-controlled) block headers.  Header fields are concrete
+/// per instance (symbolic lengths make the allocation sizes symbolic: no verdict in 600 s); the
+/// block content behind the header is symbolic.  The reader must return None / some bytes, never
+/// panic.
+fn damaged_patch_header(size: u32, x: i32, y: i32) {
+    let mut buf: [u8; 56] = kani::any();
+    put(&mut buf, 0, size.to_le_bytes());
+    put(&mut buf, 4, [0u8; 4]);
+    put(&mut buf, 8, x.to_le_bytes());
+    put(&mut buf, 12, y.to_le_bytes());
+    let mut cur = Cursor::new(&buf[..]);
+    let r = read_data_block_patch(&mut cur);
+    kani::cover!(true);
+    core::mem::forget(r);
+}
+/// header size field larger than the padded block (deflated block)
+#[kani::proof]
+#[kani::unwind(70)]
+#[kani::stub(crate::compression::no_header_decompress, oracle_decompress)]
+fn c17_patch_block_oversized_header_deflated() { damaged_patch_header(200, 5, 9); }
+/// header size field larger than the padded block (raw block)
+#[kani::proof]
+#[kani::unwind(70)]
+fn c17_patch_block_oversized_header_raw() { damaged_patch_header(200, 32000, 5); }
+/// negative raw length
+#[kani::proof]
+#[kani::unwind(70)]
+fn c17_patch_block_negative_raw_length() { damaged_patch_header(16, 32000, -1); }
+/// a sane header over damaged content is fine
+#[kani::proof]
+#[kani::unwind(70)]
+fn c17_patch_block_sane_header() { damaged_patch_header(16, 32000, 20); }
